@@ -60,6 +60,30 @@ HISTORY = {
     'C17_E': 'UNDECIDED at first; caught once one-sided file content counted as an independent input for witnesses',
     'C17_F': 'missed at first; caught by the running-minimum rule',
     'C18_E': 'missed at first; caught by the header-count block rule',
+    # round 4 (ids G/H/I)
+    'C01_I': 'missed at first (the projection was only ever a symbolic object); caught by the constructor rule: every field is the argument, zero included',
+    'C02_H': 'missed at first; caught by the ISG zone table rule (each of the ten zones passes every raising test, neighbours are rejected)',
+    'C03_G': 'missed at first; caught by the confirmed-rounding model: a rounding outside the frozen table of rounding sites is the function rnd(x, d)',
+    'C03_I': 'missed at first; caught by the domain guards of llh2xyz / xyz2llh (poles are inside the domain)',
+    'C06_G': 'missed at first; caught by the confirmed-rounding model',
+    'C06_I': 'missed at first; caught by the in-place dtype rule (R-DTYPE): an array literal of the caller\'s numbers updated in place',
+    'C07_H': 'UNDECIDED at first; caught by the fast-path rule: branch conditions of each conform7 call evaluated with each rate in turn non-zero',
+    'C08_H': 'missed at first; caught by the carry-order rule (minutes compared with 60 only after the seconds carry)',
+    'C08_I': 'missed at first; caught once the raising tests of hp2dms / hp2ddm were enumerated over the digit domain like those of the validators',
+    'C09_H': 'missed at first; caught once a module-level one-shot iterator counted as state consumed by its first use',
+    'C09_I': 'missed at first; caught after operator methods that return an operand (`return self`) made the result of `a + b` an alias',
+    'C10_I': 'missed at first; caught by the confirmed-rounding model',
+    'C11_H': 'first only C07/C09; C11 now applies the state rule to __add__, __neg__ and iers2trans',
+    'C14_G': 'first only C05; C14 now runs the rules of the components its grid functions call (Vincenty inverse / direct, projection guards)',
+    'C14_H': 'first only C05; same mechanism as C14_G',
+    'C14_I': 'first only C01; same mechanism as C14_G',
+    'C17_I': 'missed at first; caught by the mutable-default rule (a default container stored on the object)',
+    'C18_G': 'UNDECIDED at first; caught after the one-test form of the zero-line rule was recognised and tolerance comparisons rejected',
+    'C18_H': 'missed at first; caught by the rule that no file-reading function is memoised by file name',
+    'C18_I': 'missed at first; caught by the exit rule: no return before the %ENDSNX trailer write',
+    'C19_G': 'UNDECIDED at first; caught by evaluating the dispersion identity at points of the atmosphere box when the exact decision is out of reach',
+    'C19_H': 'missed at first; caught by the confirmed-rounding model',
+    'C19_I': 'missed at first; caught by the domain guards of the plane routines',
     'C08_C': 'patch re-based after the HP repairs; first UNDECIDED, caught after str(float) was modelled as a non-fixed-point rendering',
 }
 
@@ -86,7 +110,7 @@ def main(seed_out, seed_eval, rename=None):
     os.makedirs(dst_root, exist_ok=True)
     index = []
     for prop in sorted(os.listdir(seed_out)):
-        for ab in ('A', 'B'):
+        for ab in ('A', 'B', 'C'):
             d = os.path.join(seed_out, prop, ab)
             if not os.path.isdir(d):
                 continue
